@@ -205,7 +205,10 @@ structure RankOut where
   deriving DecidableEq, Repr
 
 /-- `BinaryMatrixRankImpl` (+ the argument validation `ChiSquare` performs on the exact
-`RankDistribution`: for `c < r` the probability of full rank is 0.0 → ValueError). -/
+`RankDistribution`: for `c < r` the probability of full rank is 0.0 → ValueError).
+EXACT part only: the float `RankDistribution` can also UNDERFLOW to 0.0 (c ≫ r, large k) and make
+`ChiSquare` raise ValueError; that is decided by an oracle in `binaryMatrixRankImplF`
+(Model/NistFloat.lean), which is what the driver op `nist.rank` evaluates. -/
 def binaryMatrixRankImpl (rows : List Nat) (r c k : Nat) : Except PyErr RankOut :=
   if r = 0 then .error .zeroDivision
   else if rows.length / r < 1 then .error .insufficientData
@@ -355,7 +358,9 @@ structure OtmOut where
 
 /-- `OverlappingTemplateMatching(bits, n, m, block_size)`, `m ≥ 1`. Repaired behaviour (D14):
 InsufficientDataError when there is no complete block (pinned: nan). A block shorter than
-`m + 4` cannot contain five occurrences: `ChiSquare` rejects the zero probability. -/
+`m + 4` cannot contain five occurrences: `ChiSquare` rejects the zero probability.
+EXACT part only: underflow of the float matrix power (m ≳ 1071) → ValueError is decided by an oracle
+in `overlappingWithF` (Model/NistFloat.lean), which is what the driver op `nist.otm` evaluates. -/
 def overlappingWith (bits n m bs : Nat) : Except PyErr OtmOut :=
   if bs = 0 then .error .zeroDivision
   else if n / bs = 0 then .error .insufficientData
@@ -645,7 +650,9 @@ def rwOut (n : Nat) (st : RW) (maxs mins : Int) (maxState maxCnt maxStateVariant
 /-- `RandomWalk(bits, n, max_state, max_cnt, max_state_variant)` for `n ≥ 1`.
 `CumulativeSumsPValue(0, z)` divides by √0 → ZeroDivisionError. With `max_cnt = 0` and
 enough cycles `Igamc(0, ·)`'s χ² has zero expected counts → ZeroDivisionError is not modelled:
-precondition `max_cnt ≥ 1`. -/
+precondition `max_cnt ≥ 1`.  EXACT part only: for `max_cnt ≥ 1075` the float
+`RandomExcursionsDistribution` underflows and Python divides by 0.0 — oracle in `randomWalkF`
+(Model/NistFloat.lean), which is what the driver op `nist.randomwalk` evaluates. -/
 def randomWalkOf (v : Variant) (n : Nat) (st : RW) (maxState maxCnt maxStateVariant : Nat) :
     Except PyErr RandomWalkOut :=
   match rwMax v st, rwMin v st with
